@@ -3,6 +3,7 @@ import json
 
 import build
 import core
+import eng_opts
 
 
 def scen_check(module, level, rule, min_obs_quick=None, min_obs_thorough=None, config="asan",
@@ -175,6 +176,7 @@ CHECKS = {
         "non-trivial = a launch was compared",
         {"launches_checked": 1000, "args_compared": 5000, "env_entries_compared": 5000, "relative_programs": 300,
          "deep_cwd_cases": 100, "path_searches": 100}, assumptions=KERNEL_TRUST),
+    "C13": {"run": eng_opts.run, "level": "exploration", "module": "eng_opts"},
 }
 
 
@@ -261,10 +263,17 @@ MANIFEST_TEXT = {
             "name make resolution against the wrong directory visible.",
             "PATH search only where parent and child PATH agree; beyond PATH_MAX only a clean failure is required (ASan watches the buffer arithmetic)",
             "DESIGN.md 3/C03"),
+    "C13": ("opts", "runtime monitor: independent rule table vs reproc_start's verdict + libc trace of the redirect set-up, in-process enumeration",
+            "All 8.2 million redirect assignments (thorough) are run through the real reproc_start with fork made to fail; the oracle is a "
+            "transcription of the documented rules. Rejections must be EINVAL with no descriptor- or process-creating call before them, "
+            "acceptances must set up exactly the documented effective redirect for each stream.",
+            "out-of-range types and parent+discard with nothing left to compete for are don't-care; HANDLE vs STDOUT resolution is C10's job",
+            "DESIGN.md 3/C13"),
 }
 
-ENGINE_PATHS = {"life": "eng_life.py", "poll": "eng_poll.py", "io": "eng_io.py", "fault": "eng_fault.py", "ident": "eng_ident.py"}
+ENGINE_PATHS = {"opts": "eng_opts.py", "life": "eng_life.py", "poll": "eng_poll.py", "io": "eng_io.py", "fault": "eng_fault.py", "ident": "eng_ident.py"}
 ENGINE_KINDS = {
+    "opts": "in-process enumerator (src/opts.c) linked against the interposed library; fork fails with a reserved errno",
     "ident": "helper child reports its own fd table / argv / env / cwd over a control socket found via its executable's directory",
     "fault": "fault injector in the interposition layer; call sites discovered by tracing; scenario runner as vehicle",
     "io": "scenario runner on a virtual clock; position-coded streams; recording sinks; ground-truth stream model",
